@@ -271,7 +271,7 @@ func c19Sequence(rec *evid.Rec, f fataler, auto bool, seq []string, closing stri
 // canary (manual validation: no timer ends it) runs or has been auto-paused by restarts; after each of 1-3 command
 // bodies the system gets 3 x reconcileFrequency + 2s and must then show what the command demands.
 func TestC19Queue(t *testing.T) {
-	rec := evid.New("TestC19Queue", "C19", "event-driven scheduling with the repository's own watch wiring: 3 nodes, reconcileFrequency in {1s, 2s, 10s}, manual canary on one node, running or auto-paused by three restarts of its pod; 1-3 command bodies from {canary pause, canary unpause, canary fail, canary validate}, each followed by 3 x reconcileFrequency + 2s of event-driven running; oracle: a refused command writes nothing; pause => state Canary Paused, unpause => state Canary and Canary-Paused not True on the set, validate => the canary set is active, fail => status.canary gone and the active set unchanged; monitors paused-frozen, promotion-rule, status-function after every reconcile; non-trivial = an unpause of an auto-paused canary; distinct by configuration")
+	rec := evid.New("TestC19Queue", "C19", "event-driven scheduling with the repository's own watch wiring: 3 nodes, reconcileFrequency in {1s, 2s, 10s}, manual canary on one node, running or auto-paused (three restarts of its pod, or a container that cannot start: ImagePullBackOff); 1-3 command bodies from {canary pause, canary unpause, canary fail, canary validate}, each followed by 3 x reconcileFrequency + 2s of event-driven running; oracle: a refused command writes nothing; pause => state Canary Paused, unpause => state Canary and Canary-Paused not True on the set, validate => the canary set is active, fail => status.canary gone and the active set unchanged; monitors paused-frozen, promotion-rule, status-function after every reconcile; non-trivial = an unpause of an auto-paused canary; distinct by configuration")
 	t.Cleanup(func() {
 		if !t.Failed() {
 			rec.Done()
@@ -279,13 +279,14 @@ func TestC19Queue(t *testing.T) {
 	})
 	rapid.Check(t, func(rt *rapid.T) {
 		freq := rapid.SampledFrom([]time.Duration{time.Second, 2 * time.Second, 10 * time.Second}).Draw(rt, "reconcileFrequency")
-		autoPaused := rapid.Bool().Draw(rt, "autoPaused")
+		pausedBy := rapid.SampledFrom([]string{"", "restarts", "cannot-start"}).Draw(rt, "autoPausedBy")
+		autoPaused := pausedBy != ""
 		nc := rapid.IntRange(1, 3).Draw(rt, "commands")
 		var cmds []string
 		for i := 0; i < nc; i++ {
 			cmds = append(cmds, rapid.SampledFrom([]string{"canary-pause", "canary-unpause", "canary-unpause", "canary-fail", "canary-validate"}).Draw(rt, fmt.Sprintf("cmd%d", i)))
 		}
-		desc := fmt.Sprintf("reconcileFrequency=%s autoPaused=%v commands=%v", freq, autoPaused, cmds)
+		desc := fmt.Sprintf("reconcileFrequency=%s autoPausedBy=%q commands=%v", freq, pausedBy, cmds)
 		var viol []mon.V
 		w := &World{rec: rec, cfg: WorldCfg{Monitors: mon.Of("paused-frozen", "promotion-rule", "status-function", "no-panic"), Property: "C19"}, H: mon.NewHistory(), RSSeen: map[string]bool{}, RolesSynced: map[string]bool{}, Facts: map[string]int{}, lastSyncAt: map[string]time.Time{}, Det: true}
 		w.OnViolation = func(vs []mon.V) { viol = append(viol, vs...) }
@@ -344,6 +345,12 @@ func TestC19Queue(t *testing.T) {
 			q.env(func() {
 				for _, p := range w.C.Pods() {
 					if p.Labels[oracle.LabelRSName] == crs {
+						if pausedBy == "cannot-start" {
+							// the canary pod cannot pull its image any more: no restart, a waiting container
+							w.C.Break(p.Namespace, p.Name)
+							w.C.Waiting(p.Namespace, p.Name, 0, "ImagePullBackOff")
+							continue
+						}
 						for i := 0; i < 3; i++ {
 							w.C.Restart(p.Namespace, p.Name, 0, "Error")
 						}
@@ -352,7 +359,7 @@ func TestC19Queue(t *testing.T) {
 			})
 			run(settleD)
 			if e := w.C.EDS(k.Namespace, k.Name); !stop() && e.Status.State != edsv1.ExtendedDaemonSetStatusStateCanaryPaused {
-				add("C19/queue/auto-pause-not-shown", fmt.Sprintf("%s after three restarts of the canary pod the state is %q", settleD, e.Status.State))
+				add("C19/queue/auto-pause-not-shown", fmt.Sprintf("%s after the canary pod got into trouble (%s) the state is %q", settleD, pausedBy, e.Status.State))
 			}
 		}
 		unpausedAutoPaused := false
